@@ -22,7 +22,7 @@ LevelDecs == <<"0.001", "0.01", "0.05", "0.1", "0.2", "0.25", "0.3", "0.5", "0.7
 CKinds == <<"two", "upper", "lower">>
 Conf(ki, li) == [kind |-> CKinds[ki], level |-> [dec |-> LevelDecs[li]]]
 FrontEnds == <<"ci", "ci_wilson_ratio", "ci_true", "ci_if", "stats_new", "stats_from_iter",
-               "stats_extend", "stats_extend_if", "stats_add", "stats_mixed">>
+               "stats_extend", "stats_extend_if", "stats_add", "stats_mixed", "stats_collect_filtered">>
 
 \* sampled large populations with k drawn by TLC (seeded)
 BigNs == <<1000, 9999, 65536, 250000, 1000003, 10000000>>
@@ -56,8 +56,28 @@ RowPart(d) ==
            \* the documented alias and the Stats path at large populations too (count-based front-ends
            \* everywhere, the iterating ones up to 65 536 at one level)
            /\ (m = 1) => \A f \in {1, 5, 9} : Emit(Case(FrontEnds[f], n, ks[j], ki, li, FALSE, FALSE) @@ [method |-> "wilson"])
-           /\ (m = 1 /\ li = 12 /\ n <= 65536) => \A f \in {2, 3, 4, 6, 7, 8, 10} :
+           /\ (m = 1 /\ li = 12 /\ n <= 65536) => \A f \in {2, 3, 4, 6, 7, 8, 10, 11} :
                  Emit(Case(FrontEnds[f], n, ks[j], ki, li, FALSE, FALSE) @@ [method |-> "wilson"])
+
+\* populations beyond 2^32 (n = a 2^p), successes b 2^q between 10 and n - 10; count-based entry points only
+BigPops == << [a |-> 1, p |-> 33], [a |-> 5, p |-> 31], [a |-> 3, p |-> 40] >>
+BigKs(nb) == << [a |-> nb.a, p |-> nb.p - 1], [a |-> 3 * nb.a, p |-> nb.p - 2], [a |-> 17, p |-> 0], [a |-> 5, p |-> 20] >>
+BigPopPart(d) ==
+  \A i \in DOMAIN BigPops : \A j \in 1..4 : \A li \in {4, 8, 12, 14, 19} : \A ki \in 1..3 :
+     LET nb == BigPops[i]  kb == BigKs(nb)[j]
+         c(fe) == [op |-> "prop.big", fe |-> fe, nbig |-> nb, kbig |-> kb, conf |-> Conf(ki, li), li |-> li,
+                   grp |-> Grp, rowstart |-> TRUE, first |-> TRUE, method |-> IF fe = "ci_z_normal" THEN "wald" ELSE "wilson"] IN
+     /\ Emit(c("ci_z_normal"))
+     /\ Emit(c("ci_wilson"))
+     /\ Emit(c("ci"))
+     /\ Emit(c("stats_new"))
+
+\* every k of a few populations through the count-based and ratio-based entry points (the coverage of C12 is that of ci_wilson
+\* only if they all return its interval)
+FrontsPart(d) ==
+  \A n \in {100, 400, 1000} : \A li \in {10, 12} : \A ki \in 1..3 : \A k \in 0..n :
+     /\ Emit(Case("ci_wilson", n, k, ki, li, k = 0, k = 0 /\ ki = 1) @@ [method |-> "wilson"])
+     /\ \A f \in {1, 2, 5} : Emit(Case(FrontEnds[f], n, k, ki, li, FALSE, FALSE) @@ [method |-> "wilson"])
 
 Mults == <<1, 2, 3, 10, 100>>
 MultPart(d) ==
@@ -76,6 +96,6 @@ LevelsPart(d) ==
 
 Next == /\ ~done
         /\ done' = TRUE
-        /\ CASE Grp = "row" -> RowPart(done) [] Grp = "mult" -> MultPart(done) [] Grp = "levels" -> LevelsPart(done)
+        /\ CASE Grp = "row" -> (RowPart(done) /\ BigPopPart(done)) [] Grp = "big" -> BigPopPart(done) [] Grp = "fronts" -> FrontsPart(done) [] Grp = "mult" -> MultPart(done) [] Grp = "levels" -> LevelsPart(done)
 Spec == Init /\ [][Next]_done
 =============================================================================
